@@ -371,6 +371,23 @@ def output_oracle(h, recs_at, phys, ns, nc, viol, stats, tag="C09"):
         if np.any(np.diff(rt) < 0):
             bad("sample times decrease")
             return
+        acc = out.get("acc")
+        if acc is not None and n:
+            # the accessors read the same array and report it in the same units
+            d3 = data.reshape(n, ns, nc)
+            g = np.frombuffer(acc[0], dtype=np.float64)
+            loc = np.frombuffer(acc[2], dtype=np.float64)
+            want_g = d3[:, 0, :].sum(axis=1)
+            want_l = d3[:, ns - 1, nc - 1]
+            fin_g = np.isfinite(want_g)
+            if acc[1] != out["data_units"] or acc[3] != out["data_units"]:
+                bad("get_trajectory() reports units %r / %r, trajectory.data is in %r" % (acc[1], acc[3], out["data_units"]))
+                return
+            if len(g) != n or len(loc) != n or np.any(np.abs(g[fin_g] - want_g[fin_g]) > 1e-12 * np.abs(d3[:, 0, :]).sum(axis=1)[fin_g] + 1e-300) \
+                    or not same(loc, want_l):
+                bad("get_trajectory() (merged first species / last species in the last cell) does not read trajectory.data")
+                return
+            stats["accessor_reads_checked"] = stats.get("accessor_reads_checked", 0) + 1
         stats["outputs_checked"] = stats.get("outputs_checked", 0) + 1
 
 
